@@ -35,7 +35,7 @@ var (
 )
 
 const (
-	ClassOther = iota
+	ClassOther    = iota
 	ClassGradRule // function literal lexically inside package gradtrack
 	ClassGen      // element generators / fill loops (in-flight state)
 	ClassRNG
@@ -67,10 +67,10 @@ var (
 	foreignSeen bool
 )
 
-func SetOwner(gid uint64)  { ownerGID = gid }
-func CurrentGID() uint64   { return curGID() }
-func ForeignSeen() bool    { return foreignSeen }
-func ClearForeign()        { foreignSeen = false }
+func SetOwner(gid uint64) { ownerGID = gid }
+func CurrentGID() uint64  { return curGID() }
+func ForeignSeen() bool   { return foreignSeen }
+func ClearForeign()       { foreignSeen = false }
 
 func hook(site int) {
 	if ownerGID != 0 {
